@@ -98,9 +98,18 @@ type RespSpec struct {
 }
 
 type NSDecl struct {
-	On     string `json:"on"`     // local name of the elements that get the declaration
-	Prefix string `json:"prefix"` // e.g. NotOnOrAfter
-	Value  string `json:"value"`  // the "namespace URI"; "@ms:<n>" stands for the instant t0+n ms in its UTC lexical form
+	On     string `json:"on"`           // local name of the elements that get the declaration
+	Prefix string `json:"prefix"`       // e.g. NotOnOrAfter
+	Value  string `json:"value"`        // the "namespace URI"; "@ms:<n>" stands for the instant t0+n ms in its UTC lexical form
+	NS     string `json:"ns,omitempty"` // foreign-namespace attributes only: "" an extension namespace (x:), "xml" or "xsi" (the two namespaces the schema types do know attributes of)
+}
+
+// withNS sets the namespace kind of every entry.
+func withNS(ds []NSDecl, ns string) []NSDecl {
+	for i := range ds {
+		ds[i].NS = ns
+	}
+	return ds
 }
 
 func applyQualAttrs(root *etree.Element, attrs []NSDecl, t0 time.Time) {
@@ -117,8 +126,16 @@ func applyQualAttrs(root *etree.Element, attrs []NSDecl, t0 time.Time) {
 					fmt.Sscanf(v, "@ms:%d", &n)
 					v = t0.Add(ms(n)).UTC().Format("2006-01-02T15:04:05.000Z")
 				}
-				e.CreateAttr("xmlns:x", "urn:example:ext")
-				e.CreateAttr("x:"+d.Prefix, v)
+				switch d.NS {
+				case "xml":
+					e.CreateAttr("xml:"+d.Prefix, v)
+				case "xsi":
+					e.CreateAttr("xmlns:xsi", "http://www.w3.org/2001/XMLSchema-instance")
+					e.CreateAttr("xsi:"+d.Prefix, v)
+				default:
+					e.CreateAttr("xmlns:x", "urn:example:ext")
+					e.CreateAttr("x:"+d.Prefix, v)
+				}
 			}
 		}
 		if e.Tag == "EncryptedAssertion" || e.Tag == "Signature" {
@@ -458,7 +475,7 @@ func BuildResponseEl(s *RespSpec, t0 time.Time) *etree.Element {
 			}
 			for _, e := range targets {
 				if e.Tag == d.On {
-					applyQualAttrs(e, []NSDecl{{On: e.Tag, Prefix: d.Prefix, Value: d.Value}}, t0)
+					applyQualAttrs(e, []NSDecl{{On: e.Tag, Prefix: d.Prefix, Value: d.Value, NS: d.NS}}, t0)
 				}
 			}
 		}
